@@ -1653,7 +1653,8 @@ fn handle_set_working_directory(
             "WorkingDirectory",
             file_in_workingdir
                 .parent()
-                .expect("should have a parent directory")
+                // "/" has no parent directory: stay there
+                .unwrap_or(file_in_workingdir.as_path())
                 .display()
                 .to_string()
                 .as_str(),
